@@ -75,6 +75,18 @@ static std::string run_kind(const std::string& op, const std::string& v)
     rlbox::tainted<K, Sbx> t = *p;
     return "OK " + show_int(t.UNSAFE_unverified());
   }
+  if (op == "loadcv" || op == "loadcvp" || op == "loadidx" || op == "loadcvr") {
+    // the other load paths: element 1 of a two-element guest array holds the value under test
+    auto p = sandbox.template malloc_in_sandbox<K>(2);
+    G<K> raw[2] = { G<K>{}, parse_int<G<K>>(v) };
+    std::memcpy(p.UNSAFE_unverified(), raw, sizeof(raw));
+    if (op == "loadidx") return "OK " + show_int(p[1].UNSAFE_unverified());
+    if (op == "loadcv") return "OK " + show_int(p[1].copy_and_verify([](K x) { return x; }));
+    if (op == "loadcvp") return "OK " + show_int((p + 1).copy_and_verify([](std::unique_ptr<K> x) { return *x; }));
+    K got{};
+    p.copy_and_verify_range([&](std::unique_ptr<K[]> a) { got = a[1]; return 0; }, 2);
+    return "OK " + show_int(got);
+  }
   if (op == "arg") {
     g_preset = "0"; g_seen = "none";
     sandbox.invoke_sandbox_function(idf<K>, parse_int<K>(v));
